@@ -111,6 +111,19 @@ fn generate(rng: &mut Rng) -> ConnScenario {
         prelude: vec![],
     };
     zero_time_noise(rng, &mut sc);
+    // the same claim twice: an earlier connection from this address with this very name and UUID was authenticated
+    // by the service; now the service fails (or vouches for somebody else) - what it said last time does not count
+    if prior_cookie.is_none() && sc.client.intent != 1 && sc.client.auth_cookie.is_none() && rng.chance(1, 8) {
+        let mut prior = sc.clone();
+        prior.client.enc = EncVariant::Honest;
+        prior.services.auth = Script::always(Some(0), if rng.chance(1, 2) { AuthRes::Claim } else { AuthRes::Profile { name: format!("Earlier{}", rng.below(100)), uuid: sc.client.uuid.clone(), props: gen_props(rng) } });
+        prior.seed ^= 0x0202_0202;
+        prior.client.rng ^= 0x22;
+        sc.prelude = vec![prior];
+        if rng.chance(1, 2) {
+            sc.services.auth = Script::always(Some(0), AuthRes::Error);
+        }
+    }
     if let Some(genuine) = prior_cookie {
         let mut prior = sc.clone();
         prior.client.auth_cookie = Some(genuine);
